@@ -5,6 +5,7 @@ import (
 	"fmt"
 	"math/rand"
 	"sort"
+	"strings"
 
 	autoscalingv1 "k8s.io/api/autoscaling/v1"
 	corev1 "k8s.io/api/core/v1"
@@ -53,7 +54,7 @@ func (w *World) settingsOf(ns string) []*v1.ExtendedDaemonsetSetting {
 }
 
 func (w *World) newSetting(r *rand.Rand, ns, eds string) {
-	name := fmt.Sprintf("set-%d", r.Intn(4))
+	name := fmt.Sprintf("set-%s-%d", eds, r.Intn(4))
 	if w.S.Peek(simapi.KindSetting, ns, name) != nil {
 		return
 	}
@@ -235,6 +236,24 @@ func (m *Monitors) judgeCreatedResources(inv *simapi.Invocation, v *ERSView, c *
 		}
 		m.viol("C10", "C10.resources-precedence", map[string]string{"sim": "true", "expected-from": src}, inv,
 			map[string]any{"node": node.Name, "got": got, "acceptable": acc, "annotation": in.Ann, "settings-as-read": describeSettings(v.Settings)})
+		// C12: were they taken from an override or a setting of another ExtendedDaemonSet?
+		own := ovAnnKey(v.EDS.Namespace, v.EDS.Name)
+		for k, a := range node.Annotations {
+			var rr corev1.ResourceRequirements
+			if k != own && strings.HasSuffix(k, "."+ovContainer) && json.Unmarshal([]byte(a), &rr) == nil && apiequality.Semantic.DeepEqual(rr, got) {
+				m.viol("C12", "C12.foreign-object-influence", map[string]string{"through": "node-annotation"}, inv, map[string]any{"node": node.Name, "annotation": k, "got": got})
+			}
+		}
+		for _, s := range v.Settings {
+			if s.Spec.Reference != nil && s.Spec.Reference.Name == v.EDS.Name {
+				continue
+			}
+			for _, c := range s.Spec.Containers {
+				if c.Name == ovContainer && apiequality.Semantic.DeepEqual(c.Resources, got) {
+					m.viol("C12", "C12.foreign-object-influence", map[string]string{"through": "setting"}, inv, map[string]any{"node": node.Name, "setting": s.Name, "got": got})
+				}
+			}
+		}
 	}
 	if c.Post != nil && c.Applied() {
 		m.created[podKey(c.Post.(*corev1.Pod))] = &in
